@@ -384,7 +384,13 @@ fn raw_case(src: &mut Src, ctx: &mut Ctx) -> Result<(), String> {
         lib.cells.push(ptrs[i].clone());
     }
     let res = raw_order(&lib);
-    judge(&g, &listing, res, "raw::DepOrder::order")
+    judge(&g, &listing, res, "raw::DepOrder::order")?;
+    // the protobuf exporter writes the cells in that order: the list it produces is the ordering as users see it
+    let res = match lib.to_proto() {
+        Err(e) => Err(format!("{:?}", e)),
+        Ok(p) => p.cells.iter().map(|c| index_of(&c.name)).collect(),
+    };
+    judge(&g, &listing, res, "raw Library::to_proto cell order")
 }
 fn raw_order(lib: &raw::Library) -> Result<Vec<usize>, String> {
     let order = crate::props::compat::raw_dep_order(lib)?;
